@@ -278,12 +278,18 @@ def poolDelete (pool : Key → Option (HostId × Nat)) (k : Key) : Key → Optio
   | some (o, n) => if n ≤ 1 then upd pool k none else upd pool k (some (o, n - 1))
   | none => pool
 
-/-- reverseproxy.go:392-401 — Cleanup deletes every configured upstream, stored or not -/
+/-- reverseproxy.go:392-401 — Cleanup deletes every configured upstream, stored or not.
+    (The pool lookup is done once, here, so that the executable model stays linear; the result is
+    `poolDelete s.pool k`, see `Lemmas.stepDelete_spec`.) -/
 def stepDelete (s : State) (c : CfgId) (k : Key) : Option State :=
   match s.cfgs[c]? with
   | some cs =>
     if cs.canceled then
-      some { s with pool := poolDelete s.pool k, cfgs := s.cfgs.set c { cs with held := cs.held.erase k } }
+      match s.pool k with
+      | some (o, n) =>
+        if n ≤ 1 then some { s with pool := upd s.pool k none, cfgs := s.cfgs.set c { cs with held := cs.held.erase k } }
+        else some { s with pool := upd s.pool k (some (o, n - 1)), cfgs := s.cfgs.set c { cs with held := cs.held.erase k } }
+      | none => some { s with cfgs := s.cfgs.set c { cs with held := cs.held.erase k } }
     else none
   | none => none
 
